@@ -109,6 +109,8 @@ pub proof fn lemma_div_core(bh: int, bl: int, ah: int, al: int, q0: int, q1: int
 pub open spec fn stk(top: Seq<Felt>, s0: Seq<Felt>, c: int, d: int) -> Seq<Felt> {
     Seq::new(d as nat, |i: int| if i < top.len() { top[i] } else if i - top.len() + c < s0.len() { s0[i - top.len() + c] } else { fe(0) })
 }
+/// element i of the stack seen as s ++ 0^inf (positions beyond the depth read as the zeros that are shifted in)
+pub open spec fn sx(s: Seq<Felt>, i: int) -> Felt { if i < s.len() { s[i] } else { fe(0) } }
 pub open spec fn max16(d: int) -> int { if d >= 16 { d } else { 16 } }
 /// depth after a net change `delta` whose lowest intermediate value was `mind` (zeros are padded in
 /// whenever the depth would fall below 16 and stay on the stack afterwards)
